@@ -124,28 +124,56 @@ def scan_assumptions(text):
     return found
 
 
-def make_canary(text, fns):
-    """Append `false` to the ensures of every function under contract (must then be rejected)."""
-    out = text
-    n = 0
-    for f in fns:
-        c = f["contract"]
-        if not c:
+def make_canary_one(text, f):
+    """Append `false` to the ensures of ONE function under contract (it must then be rejected).
+    One function at a time: a callee with `ensures false` would make its callers vacuously pass."""
+    raw = f.get("raw_contract") or ""
+    if not raw.strip():
+        return None
+    last = [l for l in raw.split("\n") if l.strip()][-1]
+    idx = text.find(last)
+    if idx < 0:
+        return None
+    end = idx + len(last)
+    tail = last.rstrip()
+    add = " false," if tail.endswith(",") else ", false,"
+    if "ensures" not in raw:
+        add = ("" if tail.endswith(",") else ",") + "\n    ensures false,"
+    return text[:end] + add + text[end:]
+
+
+def run_canaries(text, fns, workdir, unit_name, rlimit, timeout):
+    from concurrent.futures import ThreadPoolExecutor
+    jobs = []
+    for k, f in enumerate(fns):
+        ctext = make_canary_one(text, f)
+        if ctext is None:
             continue
-        # locate the contract text in the file (whitespace-normalised search is overkill: the
-        # contract is inserted verbatim, so search for its last non-empty line)
-        last = [l for l in f["raw_contract"].split("\n") if l.strip()][-1]
-        idx = out.find(last)
-        if idx < 0:
-            continue
-        end = idx + len(last)
-        tail = last.rstrip()
-        add = " false," if tail.endswith(",") else ", false,"
-        if "ensures" not in f["raw_contract"]:
-            add = ("" if tail.endswith(",") else ",") + "\n    ensures false,"
-        out = out[:end] + add + out[end:]
-        n += 1
-    return out, n
+        cpath = os.path.join(workdir, "%s_canary_%d.rs" % (unit_name, k))
+        open(cpath, "w").write(ctext)
+        jobs.append((f, cpath))
+
+    def one(job):
+        f, cpath = job
+        cr = _run_verus(cpath, rlimit=rlimit, timeout=timeout)
+        ok = False
+        try:
+            cj = json.loads(cr["stdout"])
+            for m in cj["times-ms"]["smt"]["smt-run-module-times"]:
+                for fb in m.get("function-breakdown", []):
+                    if fb["function"].split("::")[-1] == f["fn"] and not fb["success"]:
+                        ok = True
+        except Exception:
+            ok = False
+        try:
+            os.remove(cpath)
+        except OSError:
+            pass
+        return f["fn"], ok, cr["wall_s"]
+
+    with ThreadPoolExecutor(max_workers=8) as ex:
+        results = list(ex.map(one, jobs))
+    return results
 
 
 def run_unit(snapshot, unit_name, workdir, tier="quick", do_canary=True):
@@ -234,27 +262,13 @@ def run_unit(snapshot, unit_name, workdir, tier="quick", do_canary=True):
         res["infra"] = "assumption scan: not on the unit's allow-list: %r" % (unknown,)
         return res
     res["trusted"] = allowed
-    # canary
+    # canaries: one per function under contract
     if do_canary and vr.get("errors", 0) == 0:
-        ctext, n = make_canary(text, fns)
-        cpath = os.path.join(workdir, unit_name + "_canary.rs")
-        open(cpath, "w").write(ctext)
-        cr = _run_verus(cpath, rlimit=rlimit, timeout=unit.get("timeout", 600))
-        res["wall_s"] += cr["wall_s"]
-        try:
-            cj = json.loads(cr["stdout"])
-            failed = set()
-            for m in cj["times-ms"]["smt"]["smt-run-module-times"]:
-                for fb in m.get("function-breakdown", []):
-                    if not fb["success"]:
-                        failed.add(fb["function"].split("::")[-1])
-            want = set(f["fn"] for f in fns if f["contract"])
-            missing = sorted(want - failed)
-            res["canary"] = {"functions": n, "rejected": len(want & failed), "not_rejected": missing}
-            if missing:
-                res["status"] = "infra"
-                res["infra"] = "vacuity: `ensures false` verified for %s (contradictory assumptions?)" % missing
-        except Exception as e:  # noqa
+        cres = run_canaries(text, fns, workdir, unit_name, rlimit, unit.get("timeout", 600))
+        missing = sorted(n for n, ok, _ in cres if not ok)
+        res["canary"] = {"functions": len(cres), "rejected": sum(1 for _, ok, _ in cres if ok),
+                         "not_rejected": missing}
+        if missing:
             res["status"] = "infra"
-            res["infra"] = "canary run failed: %s\n%s" % (e, cr["stderr"][:2000])
+            res["infra"] = "vacuity: `ensures false` verified for %s (contradictory assumptions?)" % missing
     return res
